@@ -6,6 +6,7 @@ import (
 	"fmt"
 	"io"
 	"runtime"
+	"time"
 
 	"github.com/fiorix/go-diameter/v4/diam"
 )
@@ -26,10 +27,12 @@ func init() {
 		Scenarios: []*Scenario{
 			{Name: "stream", Weight: 8, Run: c05Stream},
 			{Name: "conn", Weight: 3, Bubble: true, Run: c05Conn},
+			{Name: "multi-conn", Weight: 2, Bubble: true, Run: c05Multi},
+			{Name: "conn-timeout", Weight: 1, Bubble: true, Run: c05Timeout},
 			{Name: "sweep-splits", Run: c05Sweep, SweepN: c05SweepN, QuickSweep: true, Exhaustive: true,
 				SweepNote: "5 fixed short streams (<=512 B): every single split point, the all-1-byte fragmentation, every truncation offset (EOF and read error), and a header declaring each length 0..19 at each message position"},
 		},
-		MustProbes: []string{"pooled-body", "fresh-body", "split-in-header", "split-in-body", "badlen", "trunc-in-header", "trunc-in-body", "trunc-after-header", "conn-bufio-multi"},
+		MustProbes: []string{"pooled-body", "fresh-body", "split-in-header", "split-in-body", "badlen", "trunc-in-header", "trunc-in-body", "trunc-after-header", "conn-bufio-multi", "multi-conn-interleaved", "read-deadline-passed"},
 	})
 }
 
@@ -739,4 +742,238 @@ func c05Conn(e *Env) {
 	if endKind == "clean" && reports != 0 {
 		e.Fail("C05/conn-spurious-error-report", "clean EOF produced %d error reports", reports)
 	}
+}
+
+// ---------------------------------------------------------------- several connections at once
+
+// c05Multi: 2-3 connections read concurrently (they share the buffer pools);
+// fragments of their streams are interleaved by the engine.
+func c05Multi(e *Env) {
+	t := e.T
+	e.maxStep = 300
+	e.TrustWait = true
+	type cst struct {
+		name      string
+		sc        *SimConn
+		msgs      []c05Msg
+		data      []byte
+		delivered int
+		got       []*diam.Message
+	}
+	nc := t.Range(2, 3)
+	var cs []*cst
+	for i := 0; i < nc; i++ {
+		c := &cst{name: fmt.Sprintf("c%d", i)}
+		c.sc = newSimConn(e, c.name, drawAddr(t, 3868), drawAddr(t, 40000+i))
+		n := t.Range(1, 5)
+		for k := 0; k < n; k++ {
+			b := drawBodySize(t, false)
+			if b > 8192 {
+				b = 8192
+			}
+			m := genC05Msg(t, 10*i+k, b)
+			c.msgs = append(c.msgs, m)
+			c.data = append(c.data, m.bytes...)
+		}
+		mux := diam.NewServeMux()
+		cc := c
+		mux.HandleFunc("ALL", func(_ diam.Conn, m *diam.Message) {
+			e.mu.Lock()
+			cc.got = append(cc.got, m)
+			e.mu.Unlock()
+		})
+		if _, err := diam.NewConn(c.sc, "sim", mux, simDict()); err != nil {
+			e.Harness("NewConn: %v", err)
+		}
+		cs = append(cs, c)
+	}
+	e.Act("multi", "conns=%d", nc)
+	check := func(c *cst) bool {
+		want := 0
+		b := c.data[:c.delivered]
+		for {
+			_, rest, st := refFrame(b)
+			if st != "ok" {
+				break
+			}
+			want++
+			b = rest
+		}
+		e.mu.Lock()
+		g := append([]*diam.Message{}, c.got...)
+		e.mu.Unlock()
+		if len(g) != want {
+			e.Fail("C05/conn-dispatch-count/multi", "%s: after %d of %d bytes %d messages were dispatched, %d are complete (other connections are reading concurrently)", c.name, c.delivered, len(c.data), len(g), want)
+			return false
+		}
+		for i, m := range g {
+			if d := compareMsg(m, c.msgs[i]); d != "" {
+				e.Fail("C05/conn-wrong-message/multi", "%s message #%d: %s (bytes of another connection's message?)", c.name, i, d)
+				return false
+			}
+		}
+		return true
+	}
+	for e.Step() {
+		var live []*cst
+		for _, c := range cs {
+			if c.delivered < len(c.data) {
+				live = append(live, c)
+			}
+		}
+		if len(live) == 0 {
+			break
+		}
+		c := live[t.Draw(len(live))]
+		rem := len(c.data) - c.delivered
+		var k int
+		switch t.Pick(2, 3, 3, 2) {
+		case 0:
+			k = rem
+		case 1:
+			k = t.Range(1, 40)
+		case 2:
+			k = t.Range(1, 1200)
+		default:
+			// stop right after a header, the place where a reader holds a pooled buffer and waits
+			k = rem
+			off := 0
+			for _, m := range c.msgs {
+				if off+20 > c.delivered {
+					k = off + 20 - c.delivered
+					break
+				}
+				off += len(m.bytes)
+			}
+		}
+		if k > rem {
+			k = rem
+		}
+		if k <= 0 {
+			k = 1
+		}
+		c.sc.Deliver(c.data[c.delivered : c.delivered+k])
+		c.delivered += k
+		e.Act("deliver", "%s %d", c.name, k)
+		e.NonTrivial()
+		e.Quiesce()
+		for _, x := range cs {
+			if !check(x) {
+				goto out
+			}
+		}
+	}
+out:
+	for _, c := range cs {
+		c.sc.EndRead(io.EOF, false)
+	}
+	e.Quiesce()
+	if !e.Failed() {
+		e.Probe("multi-conn-interleaved")
+	}
+}
+
+// ---------------------------------------------------------------- read deadlines
+
+// c05Timeout: a served connection with Server.ReadTimeout; the peer stalls between
+// fragments. A read that times out ends the connection; it never resumes in the
+// middle of a message.
+func c05Timeout(e *Env) {
+	t := e.T
+	e.maxStep = 200
+	e.TrustWait = true
+	T := []time.Duration{time.Second, 50 * time.Millisecond, 5 * time.Second}[t.Draw(3)]
+	sc := newSimConn(e, "c0", drawAddr(t, 3868), drawAddr(t, 40000))
+	lis := newSimListener(e)
+	mux := diam.NewServeMux()
+	var got []*diam.Message
+	mux.HandleFunc("ALL", func(_ diam.Conn, m *diam.Message) {
+		e.mu.Lock()
+		got = append(got, m)
+		e.mu.Unlock()
+	})
+	srv := &diam.Server{Handler: mux, Dict: simDict(), ReadTimeout: T}
+	go srv.Serve(lis)
+	lis.Connect(sc)
+	e.Quiesce()
+	start := time.Now()
+	n := t.Range(1, 5)
+	var msgs []c05Msg
+	var data []byte
+	for k := 0; k < n; k++ {
+		m := genC05Msg(t, k, []int{0, 16, 200, 1500}[t.Draw(4)])
+		msgs = append(msgs, m)
+		data = append(data, m.bytes...)
+	}
+	e.Act("timeout", "T=%v msgs=%d", T, n)
+	delivered := 0
+	readStart := time.Duration(0) // when the read of the current message began
+	completed := 0
+	timedOut := false
+	for delivered < len(data) && e.Step() {
+		wait := []time.Duration{0, 0, T / 3, T - 1, T, T + 1, 2 * T}[t.Pick(4, 2, 3, 2, 1, 2, 1)]
+		if wait > 0 {
+			e.Quiesce()
+			e.Advance(wait)
+			e.Quiesce()
+			e.Act("stall", "%v", wait)
+		}
+		now := time.Since(start)
+		if now-readStart >= T {
+			timedOut = true
+			e.Probe("read-deadline-passed")
+			break
+		}
+		rem := len(data) - delivered
+		k := t.Range(1, rem)
+		if t.Chance(1, 3) {
+			k = t.Range(1, min(rem, 19))
+		}
+		sc.Deliver(data[delivered : delivered+k])
+		delivered += k
+		e.Act("deliver", "%d", k)
+		e.NonTrivial()
+		e.Quiesce()
+		// model: messages complete within the delivered prefix
+		c := 0
+		b := data[:delivered]
+		for {
+			_, rest, st := refFrame(b)
+			if st != "ok" {
+				break
+			}
+			c++
+			b = rest
+		}
+		if c > completed {
+			completed = c
+			readStart = time.Since(start) // the next read (and its deadline) starts now
+		}
+	}
+	e.mu.Lock()
+	g := len(got)
+	e.mu.Unlock()
+	if timedOut {
+		if !sc.Closed() {
+			e.Fail("C05/read-timeout-connection-kept", "ReadTimeout %v passed while message #%d was incomplete (%d of its bytes read) and the connection was not closed", T, completed, delivered)
+		} else if g != completed {
+			e.Fail("C05/conn-dispatch-count/timeout", "%d messages were complete before the read timed out, %d were dispatched", completed, g)
+		}
+		// whatever arrives later must not be parsed from the middle of a message
+		sc.Deliver(data[delivered:])
+		e.Quiesce()
+		e.mu.Lock()
+		g2 := len(got)
+		e.mu.Unlock()
+		if g2 != g && !e.Failed() {
+			e.Fail("C05/read-resumed-mid-message", "after a read timeout %d more message(s) were dispatched from the rest of the stream", g2-g)
+		}
+	} else if g != completed && !e.Failed() {
+		e.Fail("C05/conn-dispatch-count/timeout", "%d messages complete, %d dispatched, no deadline passed", completed, g)
+	} else if sc.Closed() && !e.Failed() {
+		e.Fail("C05/closed-without-timeout", "the connection was closed although every read finished within ReadTimeout %v", T)
+	}
+	sc.EndRead(io.EOF, false)
+	lis.Close()
+	e.Quiesce()
 }
